@@ -71,6 +71,15 @@ CLAIMED = {
             "text": "Every (a,b) of a box for ext_gcd and get_mult_inverse, every p up to a bound for is_prime, for int/long/cpp_int; every reachable state of two SpVecFP registers for p in {2,3,5,7} "
                     "under all operations and all scalars in [-p-1,2p+1].",
             "note": "integer extremes of built-in types excluded; the implementation itself is the transition relation"},
+    "C10": {"level": "exploration", "design_ref": "DESIGN.md section 3, C10",
+            "technique": "bounded exhaustive enumeration of a DIMACS text grammar and of all small multigraphs, executed on the real reader / predicates",
+            "text": "Every text of the grammar (comments at every position, e/a lines, optional and decimal weights, undeclared vertices, final newline present or absent) is read "
+                    "through fmemopen and compared field by field with the generator's model; the three predicates are compared with direct definitions on every small multigraph.",
+            "note": "line length far below the 1024-byte buffer; fmemopen stands in for a file"},
+    "C19": {"level": "exploration", "design_ref": "DESIGN.md section 3, C19",
+            "technique": "complete enumeration of a finite program family (header x configuration, header pairs) with the compiler/linker as oracle",
+            "text": "Every header alone and every pair of headers in two TUs, in three configurations (TBB+MPI, TBB only, neither with poisoned third-party headers); finite space enumerated completely.",
+            "note": "one toolchain (g++ 12, Boost 1.83, oneTBB 2021.8, OpenMPI)"},
 }
 for k in CLAIMED:
     ENGINES[0]["serves_properties"].append(k)
